@@ -711,3 +711,4 @@ def r6(chk, repo):
 # added rules (appended to the explanation the evidence file carries)
 EXPLANATION += (" " + 'Added during the build (DESIGN.md 4.31, second table): (R05.2) the save_registers lists around every helper call, evaluated for every destination, cover r0-r5 except the result register; (R05.10) the program name handed to BPF_PROG_LOAD is shorter than the name field (prog_load and EBPF.load by abstract execution).')
 EXPLANATION += (' Added after wave 8: (R05.4) a get_address(N, ...) call site that ignores the register handed back relies on MemoryMap.__getitem__ giving bare registers a computed address (8 rows by abstract execution); the byte-swap re-extension table of C01 is shared (no non-positive shift amount).')
+EXPLANATION += (" Added after wave 10: (R05.2) get_free_register() in a calculate() is asked for the caller's dst (or None), never for a register picked by the method.")
